@@ -56,13 +56,9 @@ def phiContents (cap : Nat) (nInserted : Nat) (slotTags : List (Option Nat)) : B
   let stored := (slotTags.filterMap id)
   let expected := (List.range nInserted).drop (nInserted - cap)
   slotTags.length == cap &&
-  -- exactly the most recent min(n, C) insertions are stored …
+  -- exactly the most recent min(n, C) insertions are stored (where they sit is not constrained)
   expected.all (fun t => stored.contains t) && stored.all (fun t => expected.contains t) &&
-  stored.length == expected.length &&
-  -- … each at its residue
-  (List.range cap).all (fun j => match slotTags.getD j none with
-    | some t => t % cap == j
-    | none => true)
+  stored.length == expected.length
 
 /-- a sampled batch: indices into the flattened buffer -/
 def phiSample (flatValid : List Bool) (idx : List Nat) : Bool :=
